@@ -30,21 +30,21 @@ META = {
 
 def check(ctx):
     m = oc.build(ctx, "R18")
-    r18_1(ctx, m)
-    r18_2(ctx, m)
-    r18_3(ctx, m)
-    r18_4(ctx, m)
+    ctx.run(r18_1, m)
+    ctx.run(r18_2, m)
+    ctx.run(r18_3, m)
+    ctx.run(r18_4, m)
     from . import c06
 
-    c06.r06_9(ctx, m)  # a component that was ordered must not look skipped to the caller
-    c06.r06_10(ctx, m)  # a chain must be recognised as one whatever its segments are called (else it is skipped)
-    c06.r06_5(ctx, m)  # tags a skipped component carries from the input play no role
+    ctx.run(c06.r06_9, m)  # a component that was ordered must not look skipped to the caller
+    ctx.run(c06.r06_10, m)  # a chain must be recognised as one whatever its segments are called (else it is skipped)
+    ctx.run(c06.r06_5, m)  # tags a skipped component carries from the input play no role
     ctx.not_decided.append("that the degree census recognises exactly the non-chain components (a graph-theoretic statement about biccs/dfs, see C15)")
     # mechanisms this property rests on (see shared.py): a change there is reported here as well
     from . import shared as _sh
 
-    _sh.graph_loader(ctx)
-    _sh.cli_layer(ctx, "gaftools.cli.order_gfa")
+    ctx.run(_sh.graph_loader)
+    ctx.run(_sh.cli_layer, "gaftools.cli.order_gfa")
 
 
 def r18_1(ctx, m):
